@@ -56,7 +56,9 @@ func main() {
 		fs := flag.NewFlagSet("c10", flag.ExitOnError)
 		merge := fs.String("merge", "", "result file of `checks/C20 c10version <tier>` (version protocol on the real manager) to fold into the evidence")
 		skip := fs.String("skip-transcription", "", "reason: do not run the transcribed version-triple enumeration")
+		mergeFailed := fs.String("merge-failed", "", "reason: the version-protocol run failed (machinery); nothing is merged and the run is not exhaustive")
 		_ = fs.Parse(os.Args[2:])
+		versionProtocolFailed = *mergeFailed
 		os.Exit(run(os.Args[1], *merge, *skip))
 	case "replay":
 		if len(os.Args) < 3 {
@@ -69,6 +71,8 @@ func main() {
 		os.Exit(2)
 	}
 }
+
+var versionProtocolFailed string
 
 func run(tier, mergePath, skipTranscription string) int {
 	start := time.Now()
@@ -123,6 +127,9 @@ func run(tier, mergePath, skipTranscription string) int {
 			counters.Add("version_protocol/executions", vp.Executions)
 			counters.Add("version_protocol/distinct_outcomes", vp.DistinctOutcomes)
 		}
+	} else if versionProtocolFailed != "" {
+		extras["version_protocol"] = "not merged: " + versionProtocolFailed
+		exhaustive = false
 	} else {
 		extras["version_protocol"] = "not merged (checks/C20 has no c10version mode yet)"
 		if skipTranscription != "" {
